@@ -18,6 +18,7 @@ import (
 	"strings"
 	"time"
 
+	"verif/minichain"
 	"verif/vk"
 )
 
@@ -38,6 +39,7 @@ type family struct {
 	TamperDepth int
 	MaxStates   int
 	Budget      time.Duration // wall-clock share of this search (0 = the run's deadline)
+	Genesis     bool          // histories start from the raw genesis state instead of the prepared base state
 }
 
 // blocks: every sequence of 1..MaxTx op indices, shortest first.
@@ -73,6 +75,7 @@ type caseSpec struct {
 	From    int     `json:"from"` // candidate block indices [From, To)
 	To      int     `json:"to"`
 	Tampers bool    `json:"tampers"`
+	Pair    [][]int `json:"pair,omitempty"` // state-key self-test: a second history that reached the same key as Hist
 }
 
 type candOutcome struct {
@@ -86,6 +89,7 @@ type candOutcome struct {
 
 type caseResult struct {
 	Harness  string         `json:"harness,omitempty"`
+	Diverge  string         `json:"diverge,omitempty"` // state-key self-test: how the two histories differ
 	Out      []candOutcome  `json:"out"`
 	Stats    map[string]int `json:"stats"`
 	Sample   string         `json:"sample,omitempty"`
@@ -106,6 +110,29 @@ type baseState struct {
 }
 
 var bases = map[bool]*baseState{}
+
+var genesisSnaps = map[bool]*snapshot{}
+
+// genesisSnap: the raw genesis state (both nodes), once per process and storage mode.
+func genesisSnap(trie bool) *snapshot {
+	if s := genesisSnaps[trie]; s != nil {
+		return s
+	}
+	w, err := newGenesisWorld(trie)
+	if err != nil {
+		fatalf("genesis: %v", err)
+	}
+	s := w.snap()
+	genesisSnaps[trie] = s
+	return s
+}
+
+func (f *family) root() *snapshot {
+	if f.Genesis {
+		return genesisSnap(f.Trie)
+	}
+	return base(f.Trie).snap
+}
 
 // base builds (once per process and storage mode) the prepared state every history starts from.
 func base(trie bool) *baseState {
@@ -151,9 +178,9 @@ func parentSnapshot(f *family, hist [][]int) *snapshot {
 	if lastParent.id == id {
 		return lastParent.snap
 	}
-	s := base(f.Trie).snap
+	s := f.root()
 	if len(hist) > 0 {
-		w, err := s.restore()
+		w, err := s.restore("parent")
 		if err != nil {
 			fatalf("%v", err)
 		}
@@ -189,12 +216,17 @@ func runCase(fams map[string]*family, cs caseSpec) (res caseResult) {
 	if f == nil {
 		fatalf("unknown family %q", cs.Family)
 	}
+	if cs.Pair != nil {
+		res.Diverge = mergeCheck(f, cs.Hist, cs.Pair)
+		res.Stats["merge_checks"]++
+		return res
+	}
 	t0 := time.Now()
 	ps := parentSnapshot(f, cs.Hist)
 	res.ReplayMS = time.Since(t0).Milliseconds()
 	blocks := f.blocks()
 	for bi := cs.From; bi < cs.To; bi++ {
-		w, err := ps.restore()
+		w, err := ps.restore("cand")
 		if err != nil {
 			fatalf("%v", err)
 		}
@@ -245,6 +277,39 @@ func runCase(fams map[string]*family, cs caseSpec) (res caseResult) {
 	return res
 }
 
+// mergeCheck: two histories that were merged under one state key must have the same successors (outcome and key) for
+// every one-transaction block: the self-test against a state key that is too coarse.
+func mergeCheck(f *family, a, b [][]int) string {
+	succ := func(h [][]int) []string {
+		ps := parentSnapshot(f, h)
+		var out []string
+		for i := range f.Ops {
+			w, err := ps.restore("cand")
+			if err != nil {
+				fatalf("%v", err)
+			}
+			o := w.runBlock(ps.obs, []op{f.Ops[i]}, false)
+			w.close()
+			switch {
+			case o.Disabled != "":
+				out = append(out, "disabled")
+			case o.Committed:
+				out = append(out, "committed:"+hashKey(o.Key))
+			default:
+				out = append(out, "rejected")
+			}
+		}
+		return out
+	}
+	sa, sb := succ(a), succ(b)
+	for i := range sa {
+		if sa[i] != sb[i] {
+			return fmt.Sprintf("after %v: %s, after %v: %s (op %s)", a, sa[i], b, sb[i], f.Ops[i])
+		}
+	}
+	return ""
+}
+
 func firstWords(s string) string {
 	if i := strings.Index(s, ":"); i > 0 {
 		j := strings.Index(s[i+1:], ":")
@@ -273,6 +338,7 @@ func workerMain(fams map[string]*family) {
 // ---- parent side ---------------------------------------------------------------------------------------------
 
 type searchResult struct {
+	Keys                                               map[string]bool // hashed keys of every state reached
 	States, Transitions, Disabled, Committed, Rejected int
 	PerDepth                                           []int
 	DepthCompleted                                     int
@@ -298,6 +364,7 @@ func explore(r *vk.Run, f *family, rootKey string) searchResult {
 	res.States = 1
 	res.PerDepth = []int{1}
 	singles := map[string]bool{} // generic violation keys produced by single-transaction blocks
+	merges := 0
 	type rec struct {
 		hist [][]int
 		out  candOutcome
@@ -387,6 +454,7 @@ func explore(r *vk.Run, f *family, rootKey string) searchResult {
 			}
 		}
 		var next [][][]int
+		var pairs []caseSpec
 		for _, rc := range recs {
 			o := rc.out
 			if o.Disabled {
@@ -406,8 +474,16 @@ func explore(r *vk.Run, f *family, rootKey string) searchResult {
 						}
 					}
 				}
-				report(key, v.What, map[string]interface{}{"search": f.Name, "trie": f.Trie, "blocks_from_base_state": names(rc.hist),
-					"setup": "see setupBlocks() in harness/cmd/c06/world.go", "rerun": "/verif/check C06 --tier " + r.Tier})
+				start := "base state (setupBlocks() in harness/cmd/c06/world.go)"
+				if f.Genesis {
+					start = "genesis state"
+				}
+				var blocksJSON [][]op
+				for _, b := range rc.hist {
+					blocksJSON = append(blocksJSON, f.opsOf(b))
+				}
+				report(key, v.What, map[string]interface{}{"search": f.Name, "trie": f.Trie, "genesis": f.Genesis, "start": start, "blocks": names(rc.hist),
+					"blocks_json": blocksJSON, "replay_with": "/verif/check C06 --replay <this file>"})
 			}
 			if !o.Committed {
 				res.Rejected++
@@ -423,7 +499,11 @@ func explore(r *vk.Run, f *family, rootKey string) searchResult {
 			if hard {
 				continue // do not expand beyond a state reached through an unexplained violation
 			}
-			if _, ok := seen[o.KeyHash]; ok {
+			if rep, ok := seen[o.KeyHash]; ok {
+				merges++
+				if merges%25 == 1 && fmt.Sprint(rep) != fmt.Sprint(rc.hist) {
+					pairs = append(pairs, caseSpec{Family: f.Name, Hist: rep, Pair: rc.hist})
+				}
 				continue
 			}
 			if f.MaxStates > 0 && res.States >= f.MaxStates {
@@ -441,10 +521,42 @@ func explore(r *vk.Run, f *family, rootKey string) searchResult {
 		if !res.Capped {
 			res.DepthCompleted = depth
 		}
+		if len(pairs) > 0 && !r.Expired() { // state-key self-test on a sample of the merges of this level
+			if len(pairs) > 32 {
+				pairs = pairs[:32]
+			}
+			ppath := filepath.Join(scratchDir(), fmt.Sprintf("%s-m%d.json", f.Name, depth))
+			pdata, _ := json.Marshal(pairs)
+			if err := ioutil.WriteFile(ppath, pdata, 0600); err != nil {
+				vk.Fatalf("cases file: %v", err)
+			}
+			r.RunIsolated(len(pairs), vk.IsoOpts{CaseTimeout: 180 * time.Second, ExtraArgs: []string{"--c06-cases", ppath}},
+				func(i int, raw json.RawMessage, fatal string) {
+					if fatal != "" {
+						vk.Fatalf("%s: worker died in merge check %d: %s", f.Name, i, fatal)
+					}
+					var cr caseResult
+					if err := json.Unmarshal(raw, &cr); err != nil {
+						vk.Fatalf("%s: bad worker result: %v", f.Name, err)
+					}
+					if cr.Harness != "" {
+						vk.Fatalf("%s: merge check %d: %s", f.Name, i, cr.Harness)
+					}
+					if cr.Diverge != "" {
+						vk.Fatalf("%s: state key too coarse: histories %v and %v share a key but diverge: %s", f.Name, names(pairs[i].Hist), names(pairs[i].Pair), cr.Diverge)
+					}
+					res.Stats["merge_checks"]++
+				})
+			os.Remove(ppath)
+		}
 		frontier = next
 		if res.Capped {
 			break
 		}
+	}
+	res.Keys = map[string]bool{}
+	for k := range seen {
+		res.Keys[k] = true
 	}
 	return res
 }
@@ -505,4 +617,30 @@ func flush(r *vk.Run) {
 		r.Violation(key, v.what, v.replay)
 	}
 	pending = nil
+}
+
+// cleanup closes the node cores this process still holds and removes scratch files (Finish exits the process).
+func cleanup() {
+	if lastParent.own {
+		lastParent.snap.tmpl.close()
+	}
+	for _, b := range bases {
+		b.snap.tmpl.close()
+	}
+	for _, s := range genesisSnaps {
+		s.tmpl.close()
+	}
+	os.RemoveAll(scratchDir())
+	os.RemoveAll(procDir())
+	minichain.SweepStale("/dev/shm")                         // instance directories of worker processes that have exited
+	if ents, err := ioutil.ReadDir("/dev/shm"); err == nil { // undo-log directories of this check's dead workers
+		for _, e := range ents {
+			var pid int
+			if n, _ := fmt.Sscanf(e.Name(), "C06-w%d", &pid); n == 1 {
+				if _, err := os.Stat(fmt.Sprintf("/proc/%d", pid)); os.IsNotExist(err) {
+					os.RemoveAll(filepath.Join("/dev/shm", e.Name()))
+				}
+			}
+		}
+	}
 }
